@@ -3,7 +3,7 @@
    forexpand.go (run against gmars on every run: hook kind 21 and whole programs),
    Render.unroll the manual unrolling of an abstract program. *)
 From GM Require Import Base Text Token Lexer Scanner ExprSpec ExprEval ForExpand Parser Compile Sim Prog Meaning Render AsmSpec
-     C05Lexer C05Expander C08Proof C08Block.
+     C05Lexer C05Expander C08Proof C08Block C08Scan C08Passes.
 From Coq Require Import Lia.
 Open Scope N_scope.
 
@@ -154,9 +154,88 @@ Example C08_one_pass_example :
                       T d; T (s2t "j"); nlt; T (s2t "rof"); nlt]).
 Proof. cbv zeta. split; [repeat constructor; cbn; discriminate|vm_compute; reflexivity]. Qed.
 
-(* missing: that the passes of the driver, one block each, add up to the unrolling of the abstract program
-   (Render.unroll), and the composition with lexer, parser and compiler into C08_full_statement (that the driver
-   ends is C05).  These are decided on every run by the correspondence: generated programs
-   (blocks in sequence, nested to depth 3, counts 0..6 from literals and EQU expressions, counters in inner and
-   outer operand expressions, block labels) and their extracted unrollings are assembled by gmars and by the
-   extracted model and compared with each other and with the extracted meaning. *)
+(* THE PASS DRIVER.  One pass of CompileWarrior's driver, scanner included: on a stream whose first block is as above,
+   where the lines in front define the EQU symbols syms (C08Scan.scan_spec: the definitions in order; a name
+   defined twice is an error, an END line hides the block) and the count evaluates to v over these symbols and the
+   predefined constants, the driver continues with the stream in which the block is written out. *)
+Theorem C08_pass_driver_partial :
+  forall cfg k pre hl forw es body cls rofw skip rest e v d_at content' syms,
+    Forall pline_ok pre ->
+    plbl_ok hl -> t_typ forw = tokText -> tok_is_pseudo forw = true -> lower_is (t_val forw) "for" = true -> Forall plain_tok es ->
+    front_symbols pre = Some syms ->
+    expand_and_evaluate (filter noncomment es) (with_constants cfg syms) = Some (EOk v) ->
+    Forall bline_ok body -> body_run body 0 None [] = Some (O, d_at, content') ->
+    Forall (fun vc => is_label (fst vc)) cls ->
+    t_typ rofw = tokText -> tok_is_pseudo rofw = true -> lower_is (t_val rofw) "for" = false -> lower_is (t_val rofw) "rof" = true ->
+    Forall plain_tok skip -> Forall nonterm rest -> t_typ e = tokEOF ->
+    pass_loop cfg (S k)
+      (flat_map pl_toks pre ++ (plbl_seg hl ++ forw :: es ++ [nlt]) ++ flat_map bl_toks body
+       ++ lbl_seg cls ++ rofw :: skip ++ (nlt :: rest ++ [e])) =
+    pass_loop cfg k
+      (flat_map pl_out pre ++ emit_body (Z.to_nat v) d_at (last (map fst hl) []) (init_list (map fst hl)) content' ++ rest ++ [tEOF]).
+Proof. exact pass_step. Qed.
+Print Assumptions C08_pass_driver_partial.
+
+(* THE PASSES ADD UP.  `unrolls cfg k toks final`: final is obtained from toks by writing out the first block of
+   the stream k times in a row (each time with the symbols in front of that block), and has no block left.  Then
+   the driver returns exactly final, whenever it is given more than k passes (CompileWarrior gives 1000). *)
+Theorem C08_passes_partial :
+  forall cfg k toks final, unrolls cfg k toks final -> forall n, (k < n)%nat -> pass_loop cfg n toks = Some (Some final).
+Proof. exact driver_unrolls. Qed.
+Print Assumptions C08_passes_partial.
+
+(* ... and therefore a text with FOR blocks is assembled exactly like any text whose tokens are its unrolling
+   (same code, same entry point, same metadata, same refusal): the statement of C08 on the model, with the
+   unrolling given as the token-level relation `unrolls` (blocks in sequence, nested, counts from expressions,
+   zero counts, block labels: whatever the single steps allow). *)
+Theorem C08_assembles_like_unrolling_partial :
+  forall cfg k t1 t2 toks final,
+    lex_ascii t1 = Some toks -> lex_ascii t2 = Some final -> unrolls cfg k toks final -> (k <= max_for_passes)%nat ->
+    counts_modelled toks None = true -> counts_modelled final None = true ->
+    compile_warrior cfg t1 = compile_warrior cfg t2.
+Proof. exact assembles_like_unrolling. Qed.
+Print Assumptions C08_assembles_like_unrolling_partial.
+
+(* non-vacuity: `x i for 2 / dat i / rof / jmp x` unrolls in one step to `x dat 1 / dat 2 / jmp x`, and the two
+   texts are assembled alike (by the theorem, not by evaluation) *)
+Module C08Example.
+Definition T := mkT tokText.
+Definition src : text := s2t "x i for 2" ++ [10%N] ++ s2t " dat i" ++ [10%N] ++ s2t "rof" ++ [10%N] ++ s2t "jmp x" ++ [10%N].
+Definition unrolled : text := s2t "x dat 1" ++ [10%N] ++ s2t "dat 2" ++ [10%N] ++ s2t "jmp x" ++ [10%N].
+Definition cfg94 := mkCfg 2 8000 8000 80000 8000 8000 100 100.
+Definition toks1 : list token :=
+  flat_map pl_toks [] ++ (plbl_seg [(s2t "x", []); (s2t "i", [])] ++ T (s2t "for") :: [mkT tokNumber [50%N]] ++ [nlt])
+  ++ flat_map bl_toks [mkBL [] [T (s2t "dat"); T (s2t "i")]] ++ lbl_seg [] ++ T (s2t "rof") :: [] ++ (nlt :: [T (s2t "jmp"); T (s2t "x"); nlt] ++ [tEOF]).
+Definition pre2 : list pline :=
+  [mkPL [(s2t "x", [])] [T (s2t "dat"); mkT tokNumber [49%N]]; mkPL [] [T (s2t "dat"); mkT tokNumber [50%N]]; mkPL [] [T (s2t "jmp"); T (s2t "x")]].
+Example unrolls_in_one_step : unrolls cfg94 1 toks1 (flat_map pl_toks pre2 ++ [tEOF]).
+Proof.
+  unfold toks1.
+  apply (U_step cfg94 0 [] [(s2t "x", []); (s2t "i", [])] (T (s2t "for")) [mkT tokNumber [50%N]] [mkBL [] [T (s2t "dat"); T (s2t "i")]] []
+                (T (s2t "rof")) [] [T (s2t "jmp"); T (s2t "x"); nlt] tEOF 2%Z (Some O) [T (s2t "dat"); T (s2t "i"); nlt] []);
+    try reflexivity; try (repeat constructor; cbn; try discriminate; fail).
+  replace (flat_map pl_out [] ++ emit_body (Z.to_nat 2) (Some 0%nat) (last (map fst [(s2t "x", @nil token); (s2t "i", [])]) [])
+               (init_list (map fst [(s2t "x", @nil token); (s2t "i", [])])) [T (s2t "dat"); T (s2t "i"); nlt]
+             ++ [T (s2t "jmp"); T (s2t "x"); nlt] ++ [tEOF])
+      with (flat_map pl_toks pre2 ++ [tEOF]) by (vm_compute; reflexivity).
+  apply U_done; [|reflexivity|vm_compute; discriminate].
+  assert (Plain : forall l, Forall (fun t => is_terminal t = false /\ t_typ t <> tokNewline) l -> Forall plain_tok l) by (intros l H; exact H).
+  constructor; [|constructor; [|constructor; [|constructor]]].
+  - split; [repeat constructor; cbn; intuition discriminate|]. split; [repeat constructor; cbn; discriminate|].
+    cbn. split; [reflexivity|right; split; reflexivity].
+  - split; [constructor|]. split; [repeat constructor; cbn; discriminate|]. cbn. right. split; [reflexivity|right; split; reflexivity].
+  - split; [constructor|]. split; [repeat constructor; cbn; discriminate|]. cbn. right. split; [reflexivity|right; split; reflexivity].
+Qed.
+Example assembled_alike : compile_warrior cfg94 src = compile_warrior cfg94 unrolled.
+Proof.
+  apply (C08_assembles_like_unrolling_partial cfg94 1 src unrolled toks1 (flat_map pl_toks pre2 ++ [tEOF]));
+    [vm_compute; reflexivity|vm_compute; reflexivity|exact unrolls_in_one_step|unfold max_for_passes; lia|vm_compute; reflexivity|vm_compute; reflexivity].
+Qed.
+End C08Example.
+
+(* missing: that the token-level relation `unrolls` holds between the rendering of an abstract program and the
+   rendering of its unrolling (Render.unroll) for every program - each instance is a finite derivation like the
+   example's - and the composition with the reference meaning.  These are decided on every run by the correspondence:
+   generated programs (blocks in sequence, nested to depth 3, counts 0..6 from literals and EQU expressions, counters
+   in inner and outer operand expressions, block labels) and their extracted unrollings are assembled by gmars and by
+   the extracted model and compared with each other and with the extracted meaning. *)
